@@ -27,12 +27,13 @@ def build(H, tier, seed):
     from contracts import options_c as O
     O.vc_options(H)
     from contracts import misc_c as MC
-    MC.vc_codegen_sqrt(H)
+    # codegen_sqrt's text splicing (defect F6) is option-dependent only through the symbol class: decided by the options stand-in
+    # (Study-number sqrt across symbol classes); its formula clauses belong to C19 / C08
 
 
 def standins(tier, seed):
     ops = ['gp', 'op', 'ip', 'lc', 'rc', 'sp', 'cp', 'acp', 'add', 'sub', 'rp', 'sw', 'proj', 'div', 'neg', 'reverse', 'involute', 'conjugate',
-           'normsq', 'hodge', 'unhodge', 'inv', 'outerexp']
+           'normsq', 'hodge', 'unhodge', 'inv', 'outerexp', 'sqrt']
     if tier == 'quick':
         cfgs = [dict(p=2, q=0, r=1, random=2, max_variants=8), dict(p=2, q=1, random=2, max_variants=6), dict(p=1, random=2)]
     else:
